@@ -8,7 +8,7 @@ from harness.adapters import viewer as A
 
 
 def _st1(s):
-    return {'coll': sorted(s['coll']), 'groups': sorted(s['groups']), 'given': sorted(s['given']), 'delay': s['delay']}
+    return {'coll': sorted(s['coll']), 'groups': sorted(s['groups']), 'layers': sorted([str(k[0]), int(k[1])] for k in s['layers']), 'delay': s['delay']}
 
 
 def _choices(s):
@@ -55,7 +55,7 @@ def run(ctx):
             items.append({'part': 2, 'steps': [{'act': to_json(g.state(n)['act']), 'st': _st2(g.state(n))} for n in p[1:]]})
         del g
     ctx.check_ops('Viewer parts 1+2', items, ['Append', 'Remove', 'NewGroup', 'RemoveGroup', 'ViewerAddData', 'ViewerRemoveData',
-                                              'SaveRestoreViewer', 'DelayEnter', 'DelayExit', 'PickerAddData', 'PickerRemoveData',
+                                              'SaveRestoreViewer', 'DelayEnter', 'DelayExit', 'NewAlone', 'DeleteAlone', 'RemoveLayer', 'AddSubsetLayer', 'PickerAddData', 'PickerRemoveData',
                                               'AttrAdd', 'AttrRemove', 'AttrReorder', 'SetFilter', 'Select'])
     by_viewer = {}
     for it in items:
